@@ -265,7 +265,14 @@ class Flow:
         at = at if at is not None else expr
         flow = self
 
+        budget = [0]
+
         def decide(test, where, depth):
+            # the recursion branches on every guarded definition: on code with loops that re-bind the names of their own tests it is
+            # exponential in `depth`; past a fixed amount of work the resolution is given up (no verdict) instead of running for minutes
+            budget[0] += 1
+            if budget[0] > 5000:
+                raise AnalysisError("path-conditioned resolution of %s exceeds its work budget (definitions inside loops feed their own guards): no verdict" % norm(expr)[:80])
             t = norm(T(where, depth).visit(clone(test))) if depth > 0 else norm(test)
             for k, v in assume.items():
                 if t == k or norm(test) == k:
